@@ -29,8 +29,17 @@ def sh(cmd, cwd=None, timeout=3600, env=None, input=None):
     if env:
         e.update(env)
     p = subprocess.run(cmd, cwd=cwd, shell=isinstance(cmd, str), stdout=subprocess.PIPE, stderr=subprocess.STDOUT,
-                       timeout=timeout, env=e, input=input, text=True)
+                       timeout=timeout, env=e, input=input, text=True, preexec_fn=_big_stack)
     return p.returncode, p.stdout
+
+def _big_stack():
+    """coqc evaluates long string literals (whole exported programs) recursively: give child processes the largest stack allowed"""
+    try:
+        import resource
+        soft, hard = resource.getrlimit(resource.RLIMIT_STACK)
+        resource.setrlimit(resource.RLIMIT_STACK, (hard, hard))
+    except Exception:
+        pass
 
 # ---------------------------------------------------------------- floats
 def bits2float(h):
